@@ -142,33 +142,74 @@ theorem store_some {s : St} (h : Inv s) {v L C : Nat} (X : Excl s v L C) {data :
   obtain ⟨s', hs⟩ := writeOwn_some hloc hb r1 m' data.length
   exact ⟨_, _, _, _, desc_blk hloc hb, by simp [memOf, hb], hm, hs, hcap⟩
 
+theorem detach_dirty_some {s : St} {v bk : Nat} {blk : Block} (hloc : s.vars v = .blk bk) (r1 : blk.ref = 1)
+    {m1 : List Byte} (hl : 0 < m1.length) (k : Nat) :
+    ∃ s2, detach { s with heap := upd s.heap bk (some { blk with bytes := m1, len := 0 }) } v 0 k = some s2 := by
+  have hd : desc { s with heap := upd s.heap bk (some { blk with bytes := m1, len := 0 }) } v
+      = some ⟨.blk bk, 0, 0, blk.cap, 1⟩ := by
+    simp [desc, hloc, upd_same, r1]
+  obtain ⟨d, hd, hdb, hdo, hdl, hdc, hdr⟩ : ∃ d, desc { s with heap := upd s.heap bk (some { blk with bytes := m1, len := 0 }) } v
+      = some d ∧ d.base = .blk bk ∧ d.off = 0 ∧ d.len = 0 ∧ d.cap = blk.cap ∧ d.ref = 1 := ⟨_, hd, rfl, rfl, rfl, rfl, rfl⟩
+  simp only [detach, hd, Option.bind_eq_bind, Option.bind_some]
+  by_cases fast : d.ref = 1 ∧ k ≤ d.cap
+  · simp only [fast, and_self, if_true, hdb, hdl, memOf, upd_same, Option.map_some, Option.bind_some]
+    have hp : poison m1 0 0 = m1 := by simp [poison]
+    rw [hp]
+    obtain ⟨m2, hm2⟩ := wr_some (m := m1) (off := 0) (d := [some 0]) (by simp only [List.length_cons, List.length_nil]; omega)
+    simp only [hm2, Option.bind_some, writeOwn, hloc, upd_same, r1, if_true]
+    exact ⟨_, rfl⟩
+  · simp only [fast, if_false, hdb, hdl, hdo, Nat.lt_irrefl, rdRange, memOf, upd_same, Option.map_some,
+      Option.bind_eq_bind, Option.bind_some]
+    have hr : rdList m1 0 0 = some [] := by simp [rdList]
+    rw [hr]
+    simp only [Option.bind_some]
+    obtain ⟨m3, hm3⟩ := wr_some (m := fresh (capRule k + 1)) (off := 0) (d := []) (by simp)
+    have hl3 : m3.length = capRule k + 1 := by rw [wr_length hm3, length_fresh]
+    obtain ⟨m4, hm4⟩ := wr_some (m := m3) (off := 0) (d := [some 0]) (by simp only [List.length_cons, List.length_nil]; omega)
+    simp only [hm3, hm4, Option.bind_some, Option.pure_def]
+    exact ⟨_, rfl⟩
+
+/-- both `vsnprintf` attempts run on an exclusively owned, empty block of any capacity -/
+theorem printfTail_some {s : St} (h : Inv s) {v : Nat} (hv : v < s.n) {C : Nat} (X : Excl s v 0 C) (out : List Nat) :
+    ∃ r, printfTail s v out = some r := by
+  obtain ⟨bk, blk, hloc, hb, r1, hl0, hC⟩ := X
+  have W := h.wf bk blk hb
+  have hmem : memOf s (.blk bk) = some blk.bytes := by simp [memOf, hb]
+  simp only [printfTail, desc_blk hloc hb, hmem, Option.bind_eq_bind, Option.bind_some]
+  obtain ⟨m1, hm1⟩ : ∃ m1, vsnStore blk.bytes blk.cap out = some m1 := by
+    unfold vsnStore
+    split
+    · exact ⟨_, rfl⟩
+    · exact wr_some (by simp only [List.length_append, List.length_map, List.length_take, List.length_cons,
+        List.length_nil]; omega)
+  simp only [hm1, Option.bind_some]
+  by_cases c : out.length < blk.cap
+  · simp only [c, if_true]
+    obtain ⟨s2, h2⟩ := writeOwn_some hloc hb r1 m1 out.length
+    simp only [h2, Option.bind_some, Option.pure_def]
+    exact ⟨_, rfl⟩
+  · simp only [c, if_false]
+    obtain ⟨s1, h1⟩ := writeOwn_some hloc hb r1 m1 blk.len
+    simp only [h1, Option.bind_some]
+    obtain ⟨b', blk', hv', hb', _, rfl⟩ := writeOwn_eq h1
+    rw [hloc] at hv'; injection hv' with hv'; subst hv'
+    rw [hb] at hb'; injection hb' with hb'; subst hb'
+    have hlen1 := vsnStore_length hm1
+    rw [hl0]
+    obtain ⟨s2, h2⟩ := detach_dirty_some (s := s) hloc r1 (m1 := m1) (by rw [hlen1, W.1]; omega) out.length
+    obtain ⟨E2, X2⟩ := eff_detach_dirty h hv hloc hb r1 hlen1 h2
+    simp only [h2, Option.bind_some]
+    obtain ⟨d, m, m', s3, hd, hm, hw, hs, _⟩ := store_some E2.inv X2 (data := out.map some) (by simp)
+    simp only [List.length_map] at hs
+    simp only [hd, hm, vsnStore_fits (Nat.lt_add_one _), hw, hs, Option.bind_some, Option.pure_def]
+    exact ⟨_, rfl⟩
+
 theorem printf_some {s : St} (h : Inv s) {v : Nat} (hv : v < s.n) (f : List Fmt) :
     ∃ r, printf s v f = some r := by
   obtain ⟨s1, h1⟩ := detach_some h v (c := 0) (m := Generated.printfBuf) (Nat.zero_le _)
   obtain ⟨E1, X1⟩ := eff_detach h hv h1
-  simp only [printf, h1, Option.bind_eq_bind, Option.bind_some, Option.pure_def]
-  obtain ⟨bk, blk, hloc, hb, r1, hl, hcap⟩ := X1
-  simp only [desc_blk hloc hb, memOf, hb, Option.bind_some, Option.map_some]
-  have W := E1.inv.wf bk blk hb
-  by_cases c : (render f).length < blk.cap
-  · simp only [c, if_true]
-    obtain ⟨m', hm⟩ := wr_some (m := blk.bytes) (off := 0) (d := (render f).map some ++ [some 0])
-      (by simp only [List.length_append, List.length_map, List.length_cons, List.length_nil]; omega)
-    obtain ⟨s2, h2⟩ := writeOwn_some hloc hb r1 m' (render f).length
-    simp only [hm, h2, Option.bind_some]
-    exact ⟨_, rfl⟩
-  · simp only [c, if_false]
-    have hv1 : v < s1.n := by rw [E1.n]; exact hv
-    obtain ⟨s2, h2⟩ := detach_some E1.inv v (c := 0) (m := (render f).length) (Nat.zero_le _)
-    obtain ⟨E2, X2⟩ := eff_detach E1.inv hv1 h2
-    obtain ⟨bk2, blk2, hloc2, hb2, r12, hl2, hcap2⟩ := X2
-    have W2 := E2.inv.wf bk2 blk2 hb2
-    simp only [h2, Option.bind_some, desc_blk hloc2 hb2, hb2, Option.map_some]
-    obtain ⟨m', hm⟩ := wr_some (m := blk2.bytes) (off := 0) (d := (render f).map some ++ [some 0])
-      (by simp only [List.length_append, List.length_map, List.length_cons, List.length_nil]; omega)
-    obtain ⟨s3, h3⟩ := writeOwn_some hloc2 hb2 r12 m' (render f).length
-    simp only [hm, h3, Option.bind_some]
-    exact ⟨_, rfl⟩
+  simp only [printf, h1, Option.bind_eq_bind, Option.bind_some]
+  exact printfTail_some E1.inv (by rw [E1.n]; exact hv) X1 _
 
 theorem mapUntilNul_some {f : Nat → Nat} : ∀ {m : List Byte} {L : Nat} {c : List Nat},
     m.take L = c.map some → m[L]? = some (some 0) → ∃ m', mapUntilNul f m = some m'
